@@ -161,8 +161,16 @@ def main(argv):
 
     try:
         # ------------------------------------------------------------ remove_long_lines
-        for limit in [None, 0, 1, 5, 64, 2000, 70000]:
-            L = 2000 if limit is None else limit
+        # the limit argument is a plain decimal number (boost::lexical_cast<std::size_t>): zero-padded forms are decimal,
+        # a 0x prefix is rejected
+        for bad in ("0x10", "0X5", "5x"):
+            st, out, err = R.run("remove_long_lines", [bad], b"abc\n" * 3)
+            c.count(("long-badarg", bad), bucket="remove_long_lines/non-decimal-limit")
+            if st == 0:
+                c.violation("threshold: remove_long_lines accepted the non-decimal limit %r (and kept %d of 3 lines of 3 bytes)" % (bad, out.count(b"\n")),
+                            {"tool": "remove_long_lines", "args": [bad], "stdin_hex": (b"abc\n" * 3).hex(), "out_hex": out.hex(), "how": "bin/remove_long_lines %s < stdin" % bad})
+        for limit in [None, 0, 1, 5, 64, 2000, 70000, "0100", "010", "00", "0064"]:
+            L = 2000 if limit is None else int(limit)
             args = [] if limit is None else [str(limit)]
             for r in range(max(3, reps // 8)):
                 lens = [max(0, L + d) for d in (-1, 0, 1)] + [rng.randrange(0, L + 3) for _ in range(3)]
@@ -205,6 +213,30 @@ def main(argv):
             expect("U " + hexd(data), ("remove_invalid_utf8", [], data), st, out)
             if r % 4 == 0:
                 split_check("remove_invalid_utf8", [], data, "remove_invalid_utf8")
+        # every byte 0x80..0xFF in each trail position of 2-, 3- and 4-byte sequences
+        trail_lines = []
+        for x in range(0x80, 0x100):
+            b = bytes([x])
+            trail_lines += [b"\xc3" + b, b"\xe2" + b + b"\x80", b"\xe2\x82" + b, b"\xf0" + b + b"\x98\x80", b"\xf0\x9f" + b + b"\x80", b"\xf0\x9f\x98" + b, b"a" + b + b"z"]
+        data = join(trail_lines)
+        st, out, err = R.run("remove_invalid_utf8", [], data)
+        c.count(("utf8-trail", data), bucket="remove_invalid_utf8/every-byte-in-trail-position")
+        want = join([l for l in trail_lines if is_utf8(l)])
+        if st != 0 or out != want:
+            wrong = [l for l in out.split(b"\n")[:-1] if not is_utf8(l)][:3] or [l for l in trail_lines if is_utf8(l) and l not in out.split(b"\n")][:3]
+            c.violation("utf8-gate: remove_invalid_utf8 on every byte 0x80..0xFF in each trail position: wrongly handled %r (status %s)" % (wrong, st),
+                        {"tool": "remove_invalid_utf8", "stdin_hex": join(wrong).hex() if wrong else data.hex(), "how": "bin/remove_invalid_utf8 < stdin"})
+        expect("U " + hexd(data), ("remove_invalid_utf8", [], b"(trail sweep)"), st, out)
+        b64data = join([pyb64.b64encode(l) for l in trail_lines])
+        st, out, err = R.run("remove_invalid_utf8_base64", [], b64data)
+        c.count(("b64-trail", b64data), bucket="remove_invalid_utf8_base64/every-byte-in-trail-position")
+        want = join([pyb64.b64encode(l) if is_utf8(l) else b"" for l in trail_lines])
+        if st != 0 or out != want:
+            got = out.split(b"\n")[:-1]
+            j = next((i for i, (g, w) in enumerate(zip(got, want.split(b"\n"))) if g != w), 0)
+            c.violation("b64-utf8-gate: document %r (base64 %r) was %s" % (trail_lines[j], pyb64.b64encode(trail_lines[j]), "kept" if j < len(got) and got[j] else "emptied"),
+                        {"tool": "remove_invalid_utf8_base64", "stdin_hex": (pyb64.b64encode(trail_lines[j]) + b"\n").hex(), "how": "bin/remove_invalid_utf8_base64 < stdin"})
+        expect("B " + hexd(b64data), ("remove_invalid_utf8_base64", [], b"(trail sweep)"), st, out)
         c.sample({"tool": "remove_invalid_utf8", "stdin": repr(gen_stream(rng))})
 
         # ------------------------------------------------------------ remove_invalid_utf8_base64
@@ -297,6 +329,10 @@ def main(argv):
             for a_, b_ in prs:
                 cc_cases.append((None, a_ + b"\n" + b_ + b"\n" + a_ + b"\n", "partial-collision/" + kind_))
                 cc_cases.append((a_ + b"\n", b_ + b"\n" + a_ + b"\n", "partial-collision/" + kind_))
+        cc_trail = []
+        for x in range(0x80, 0x100):
+            cc_trail += [b"\xc3" + bytes([x]), b"\xe2\x82" + bytes([x]), b"\xf0\x9f\x98" + bytes([x])]
+        cc_cases.append((None, join(cc_trail), "every-byte-in-trail-position"))
         cc_results = []
         for rem, data, kind in cc_cases:
             args = [] if rem is None else [R.file("removal", rem)]
